@@ -22,6 +22,7 @@ def run(ctx):
                 'the language: all ordered pairs of formats (quick) and random sequences of length <= 6 (thorough) on the '
                 'same objects, compared with rendering fresh deep copies; deep snapshot before/after every call. '
                 'non-trivial = distinct (batch, format sequence) pairs')
+    refused_rendering_scenario(ctx, ctx.budget(9, 90))
     nb = ctx.budget(60, 500)
     for i in range(nb):
         lang = 'ja' if i % 3 == 2 else 'en'
@@ -69,6 +70,67 @@ def run(ctx):
     import cli_common
     cli_common.cli_suite(ctx, ctx.budget(12, 120), formats=['auto_extended', 'conll', 'json', 'xml', 'jigg_xml'])      # the same through the command line itself
     common.conclude(ctx)
+
+
+def refused_rendering_scenario(ctx, count):
+    """a document rendered sentence by sentence, in every format, over several passes, where one sentence cannot be
+    rendered in some formats (a form feed in a word: lxml refuses it; a token without `word`: most formats raise
+    KeyError). The refused rendering is an observation too: the other sentences, rendered again afterwards, must
+    give what a fresh copy gave before anything was refused"""
+    rng = ctx.rng
+    for i in range(count):
+        lang = 'ja' if i % 3 == 2 else 'en'
+        fmts = R.offered(lang)
+        while True:
+            doc = R.make_batch(rng, lang, n_sent=3, licensed_only=True, awkward=0.0)
+            vi = rng.randrange(len(doc))
+            if all(len(st.tree.leaves) >= 2 for st in doc[vi]):      # the refusal happens part-way through a tree
+                break
+        for st in doc[vi]:
+            leaf = st.tree.leaves[0]
+            if i % 2 == 0:
+                leaf.token['word'] = 'a\x0cb'
+            else:
+                leaf.token.pop('word', None)
+        pristine = R.clone_batch(doc)
+        desc = {'lang': lang, 'spoiled_sentence': vi, 'kind': 'form feed' if i % 2 == 0 else 'no word',
+                'batch': [[T.enc_tree(st.tree)[:800] for st in sent] for sent in pristine]}
+        ref = {}
+        for si in range(len(doc)):
+            if si == vi:
+                continue
+            for f in fmts:
+                try:
+                    ref[(si, f)] = R.render(R.clone_batch([pristine[si]]), f, lang)
+                except Exception as e:
+                    ref[(si, f)] = ('raised', type(e).__name__)
+        state0 = R.batch_state(doc)
+        bad = None
+        refused = 0
+        for rnd in range(3):
+            order = list(range(len(doc)))
+            if rnd == 2:
+                order.reverse()
+            for si in order:
+                for f in fmts:
+                    ctx.evaluations += 1
+                    try:
+                        out = R.render([doc[si]], f, lang)
+                    except Exception as e:
+                        out = ('raised', type(e).__name__)
+                        refused += (si == vi)
+                    if si != vi and out != ref[(si, f)] and bad is None:
+                        bad = (f'sentence {si + 1} rendered in format {f} (pass {rnd + 1}, after a sentence some formats refuse) gives '
+                               f'{out if isinstance(out, tuple) else "a different output"}; a fresh copy gave '
+                               f'{ref[(si, f)] if isinstance(ref[(si, f)], tuple) else "the reference output"}')
+                        step = [rnd, si, f]
+        if R.batch_state(doc) != state0 and bad is None:
+            bad, step = 'rendering sentence by sentence changed the trees / tokens it was given', []
+        if bad:
+            ctx.fail(bad, dict(desc, step=step), fingerprint=['after-refusal', lang, step[-1] if step else ''])
+        elif refused:
+            ctx.nontrivial_add(('refused', i, lang, vi))
+        ctx.extra['renderings_refused_in_sequences'] = ctx.extra.get('renderings_refused_in_sequences', 0) + refused
 
 
 def replay(ctx, path):
